@@ -21,6 +21,11 @@ fn main() {
             checks::c12::portfolio_child(&args[2..]);
             return;
         }
+        "sanit" => {
+            util::silence_panics();
+            checks::sanit::child(&args[2..]);
+            return;
+        }
         _ => {}
     }
     let mut tier = std::env::var("VERIF_TIER").unwrap_or_else(|_| "quick".to_string());
